@@ -1137,6 +1137,11 @@ let gf_pole nO eO eI index1 index2 =
 let gf_relevant nO matrixElementTolerance residue0 =
   nO.nre_ltb matrixElementTolerance (nO.nabs residue0)
 
+(** val gf_chase_guarded : bool **)
+
+let gf_chase_guarded =
+  false
+
 (** val gf_part_eval : 'a1 -> 'a1 **)
 
 let gf_part_eval terms_at_z =
@@ -1228,6 +1233,11 @@ let susc_is_zero_pole nO reduceResonanceTolerance pole0 =
 let susc_zero_weight nO va vb wO _ index1 _ =
   nO.nmul (nO.nmul va vb) (wO index1)
 
+(** val susc_chase_guarded : bool **)
+
+let susc_chase_guarded =
+  false
+
 (** val susc_part_eval : 'a1 numops -> 'a1 -> 'a1 -> 'a1 -> 'a1 -> 'a1 **)
 
 let susc_part_eval nO terms_at_z zeroPoleWeight beta z0 =
@@ -1269,6 +1279,11 @@ let gf_total_matsubara_mult n =
 
 let matsubara_spacing nO kI kpi beta =
   nO.ndiv (nO.nmul kI kpi) beta
+
+(** val chaseIndices_guarded : bool **)
+
+let chaseIndices_guarded =
+  false
 
 (** val all_some : 'a1 option list -> 'a1 list option **)
 
@@ -1856,25 +1871,21 @@ let resonance_bound nO beta tolR l z0 z_is_zero =
     let p = fst t in
     let ab = fst (snd t) in
     let wn = fst (snd (snd t)) in
-    let wm = snd (snd (snd t)) in
     if nO.nre_ltb (nO.nabs p) tolR
-    then if nO.nre_ltb nO.n0 (nO.nabs p)
-         then if z_is_zero
-              then nO.nabs
-                     (nO.nsub (nO.nmul (nO.nmul beta ab) wn)
-                       (nO.ndiv (nO.nmul ab (nO.nsub wm wn))
-                         (nO.nsub nO.n0 p)))
-              else nO.nabs
-                     (nO.ndiv (nO.nmul ab (nO.nsub wm wn)) (nO.nsub z0 p))
-         else nO.n0
+    then let x = nO.nmul beta (nO.nabs p) in
+         let ex = nO.nexp x in
+         if z_is_zero
+         then nO.nmul
+                (nO.nmul (nO.nmul (nO.nmul (nO.nabs ab) wn) beta)
+                  (nO.ndiv x (nO.nadd nO.n1 nO.n1))) ex
+         else nO.ndiv (nO.nmul (nO.nmul (nO.nmul (nO.nabs ab) wn) x) ex)
+                (nO.nabs (nO.nsub z0 p))
     else nO.n0)
 
 (** val tau_weight : 'a1 numops -> 'a1 -> 'a1 -> 'a1 **)
 
 let tau_weight nO beta p =
-  let e = nO.nexp (nO.nopp (nO.nmul beta p)) in
-  nO.ndiv (if nO.nre_ltb nO.n1 e then e else nO.n1)
-    (nO.nabs (nO.nsub nO.n1 e))
+  nO.ndiv nO.n1 (nO.nsub nO.n1 (nO.nexp (nO.nopp (nO.nmul beta (nO.nabs p)))))
 
 (** val tau_dropped_bound :
     'a1 numops -> 'a1 -> 'a1 -> ('a1 * 'a1) list -> 'a1 **)
@@ -1893,10 +1904,30 @@ let tau_merge_bound nO beta wd =
     let p = fst (fst t) in
     let r = snd (fst t) in
     let d = snd t in
-    let e = nO.nexp (nO.nopp (nO.nmul beta p)) in
     nO.nmul
       (nO.nmul (nO.nmul (nO.nmul (nO.nabs r) d) beta) (tau_weight nO beta p))
-      (nO.nadd nO.n1 (nO.ndiv nO.n1 (nO.nabs (nO.nsub nO.n1 e)))))
+      (nO.nadd nO.n1 (tau_weight nO beta p)))
+
+(** val susc_tau_safe :
+    'a1 numops -> 'a1 -> 'a1 list -> 'a1 list list -> 'a1 list list -> 'a1 ->
+    'a1 **)
+
+let susc_tau_safe nO beta e a b tau =
+  let e0 = min_re nO e in
+  let z0 =
+    ksum nO e (fun e1 -> nO.nexp (nO.nopp (nO.nmul beta (nO.nsub e1 e0))))
+  in
+  ksum nO (idx a) (fun nr ->
+    let n = fst nr in
+    ksum nO (idx (snd nr)) (fun mc ->
+      let m = fst mc in
+      nO.ndiv
+        (nO.nmul (nO.nmul (snd mc) (mget nO b m n))
+          (nO.nexp
+            (nO.nopp
+              (nO.nadd
+                (nO.nmul (nO.nsub beta tau) (nO.nsub (nth n e nO.n0) e0))
+                (nO.nmul tau (nO.nsub (nth m e nO.n0) e0)))))) z0))
 
 type status =
 | Constructed
@@ -2218,6 +2249,21 @@ let c_gf_term_eval fexp =
 let c_susc_term_eval fexp =
   susc_term_eval (fops fexp)
 
+(** val c_gf_chase_guarded : bool **)
+
+let c_gf_chase_guarded =
+  gf_chase_guarded
+
+(** val c_susc_chase_guarded : bool **)
+
+let c_susc_chase_guarded =
+  susc_chase_guarded
+
+(** val c_chaseIndices_guarded : bool **)
+
+let c_chaseIndices_guarded =
+  chaseIndices_guarded
+
 (** val c_poly_matrix :
     (Float64.t -> Float64.t) -> int -> (monomial * fc) list -> fc mat **)
 
@@ -2304,3 +2350,10 @@ let c_tau_dropped_bound fexp =
 
 let c_tau_merge_bound fexp =
   tau_merge_bound (fops fexp)
+
+(** val c_susc_tau_safe :
+    (Float64.t -> Float64.t) -> fc -> fc list -> fc list list -> fc list list
+    -> fc -> fc **)
+
+let c_susc_tau_safe fexp =
+  susc_tau_safe (fops fexp)
